@@ -1,6 +1,6 @@
 (** C16 - the derive rejects what it cannot honour instead of ignoring it. *)
 From Deserr Require Import Base Pointer Kinds Value Scalars Types Derive DeriveSpec.
-From Deserr.proofs Require Import RejectProofs.
+From Deserr.proofs Require Import RejectProofs NoOverride.
 
 (** [rejectable] (DeriveSpec.v) is the property's list, as a definition over source-level items:
     empty / unknown / malformed attribute or invalid rename_all value, a single-valued attribute
@@ -37,6 +37,48 @@ Example c16_example :
   /\ rejectable (mkItem [[CARenameAll (Some RACamel)]; [CARenameAll (Some RALower)]] (SNamed [f])) = true.
 Proof. vm_compute. repeat split. eexists. reflexivity. Qed.
 
+
+(** Never silently drops or overrides what was written. An accepted item has readable container
+    attributes; and whenever the attributes of a container / variant / field are readable, EVERY
+    attribute item that was written - in whichever #[deserr(..)] group - is present in the merged
+    attributes with exactly the value that was written ([cle] / [vle] / [fle]: field-wise "set in
+    the item => set to the same value in the result"). The expansion ([Derive.expand],
+    [named_struct], [expand_variant]) is generated from those merged attributes alone. *)
+Theorem c16_accepted_reads_attrs : forall it t,
+  expand it = Accept t ->
+  exists ca, read_cattrs (it_attrs it) = Some ca /\ validate_cattrs ca (is_struct_shape (it_shape it)) = true.
+Proof.
+  intros it t H. unfold expand in H. destruct (read_cattrs (it_attrs it)) as [ca|]; [|discriminate].
+  exists ca. split; [reflexivity|]. destruct (validate_cattrs ca (is_struct_shape (it_shape it))); [reflexivity|discriminate].
+Qed.
+
+Theorem c16_container_no_override : forall (T : Type) (gs : list (list (cattr T))) ca,
+  read_cattrs gs = Some ca ->
+  forall g a, In g gs -> In a g -> exists o, single_cattr a = Some o /\ cle o ca.
+Proof.
+  intros T gs ca H g a Hg Ha. destruct (container_all_items_read gs ca H g a Hg Ha) as [o Ho].
+  exists o. split; [exact Ho|]. eapply container_no_override; eassumption.
+Qed.
+
+Theorem c16_variant_no_override : forall gs va,
+  read_vattrs gs = Some va -> forall g a o, In g gs -> In a g -> single_vattr a = Some o -> vle o va.
+Proof. exact variant_no_override. Qed.
+
+Theorem c16_field_no_override : forall (T : Type) (gs : list (list (fattr T))) fa,
+  read_fattrs gs = Some fa -> forall g a o, In g gs -> In a g -> single_fattr a = Some o -> fle o fa.
+Proof. intros T. exact (@field_no_override T). Qed.
+
+Check c16_accepted_reads_attrs : forall it t,
+  expand it = Accept t ->
+  exists ca, read_cattrs (it_attrs it) = Some ca /\ validate_cattrs ca (is_struct_shape (it_shape it)) = true.
+Check c16_container_no_override : forall (T : Type) (gs : list (list (cattr T))) ca,
+  read_cattrs gs = Some ca ->
+  forall g a, In g gs -> In a g -> exists o, single_cattr a = Some o /\ cle o ca.
+Check c16_variant_no_override : forall gs va,
+  read_vattrs gs = Some va -> forall g a o, In g gs -> In a g -> single_vattr a = Some o -> vle o va.
+Check c16_field_no_override : forall (T : Type) (gs : list (list (fattr T))) fa,
+  read_fattrs gs = Some fa -> forall g a o, In g gs -> In a g -> single_fattr a = Some o -> fle o fa.
+
 Check c16_never_accepted : forall (it : item tpos), rejectable it = true -> forall t, expand it <> Accept t.
 Check c16_container_rejected : forall (it : item tpos),
   cattrs_rejectable (it_attrs it) (is_struct_shape (it_shape it)) = true -> expand it = Reject.
@@ -46,3 +88,7 @@ Print Assumptions c16_never_accepted.
 Print Assumptions c16_container_rejected.
 Print Assumptions c16_field_attrs_rejected.
 Print Assumptions c16_variant_attrs_rejected.
+Print Assumptions c16_accepted_reads_attrs.
+Print Assumptions c16_container_no_override.
+Print Assumptions c16_variant_no_override.
+Print Assumptions c16_field_no_override.
